@@ -148,6 +148,9 @@ wb_free(void *p, size_t sz)
 		(void) rec_del(p);
 		pthread_mutex_unlock(&rec_lk);
 	}
+	if (sz > 0) {
+		memset(p, 0xdd, sz); // poison: use after release shows as wrong bytes
+	}
 	free(p);
 }
 #define REC(stmt)              \
